@@ -1,6 +1,11 @@
 // h-upstream: correspondence harness for C01 and C20 (iscp.Upstream on a connection that stays
 // up) against Model/Upstream.v.  Drives the real iscp.Connect/OpenUpstream/WriteDataPoints/
 // Flush/Close through an in-memory transport and a scripted broker with a ledger.
+//
+// Two families.  Event-history cases (kinds exhaustive-*, random, concurrent): a FlushPolicy wrapper
+// delegates IsFlush to the library's own policy object but OWNS the ticker channel, so ticks are
+// events and every step can be compared with the model.  Real-time cases (kind rt-interval, rt.go):
+// no wrapper; the library's own tickers and its own (shared) policy objects run on the wall clock.
 package main
 
 import (
@@ -44,6 +49,7 @@ type caseIn struct {
 	Rev0     [][2]int `json:"rev0"` // (data id, alias) in the open response
 	Ops      []opIn  `json:"ops"`
 	Writers  int     `json:"writers,omitempty"` // >0: concurrent mode
+	RT       *rtIn   `json:"rt,omitempty"`      // real-time interval case (rt.go); everything above is unused then
 }
 
 // ---------------------------------------------------------------- flush policy and storage wrappers
@@ -978,8 +984,9 @@ func main() {
 	tier := flag.String("tier", "quick", "quick|thorough")
 	out := flag.String("out", "", "output directory")
 	replay := flag.String("replay", "", "replay file")
+	only := flag.String("only", "", "rt = only the real-time family")
 	flag.Parse()
-	w := coqfmt.NewWriter(*out, "C01", "From Iscp Require Import Model.Upstream.", "up_case", "up_judge", 120)
+	w := coqfmt.NewWriter(*out, "C01", "From Iscp Require Import Model.Upstream.", "upx_case", "upx_judge", 120)
 	r := rng.New(*seed)
 	var mu sync.Mutex
 	type job struct {
@@ -1005,6 +1012,10 @@ func main() {
 			os.Exit(2)
 		}
 		jobs = append(jobs, job{&rf.Input, "replay", rf.CaseSeed})
+	} else if *only == "rt" {
+		for _, c := range genRT(r.Fork(), *tier) {
+			add(&caseIn{Policy: "rt-" + c.Mode, RT: c}, "rt-interval")
+		}
 	} else {
 		exn := 3
 		nrand := 500
@@ -1023,11 +1034,18 @@ func main() {
 		for i := 0; i < nconc; i++ {
 			add(genConcurrent(r.Fork()), "concurrent")
 		}
+		// real-time family last: it forks the generator after every event-history case was drawn
+		for _, c := range genRT(r.Fork(), *tier) {
+			add(&caseIn{Policy: "rt-" + c.Mode, RT: c}, "rt-interval")
+		}
 	}
 	results := make([]coqfmt.Case, len(jobs))
 	sem := make(chan struct{}, 8)
 	var wg sync.WaitGroup
 	for i, j := range jobs {
+		if j.c.RT != nil {
+			continue
+		}
 		wg.Add(1)
 		sem <- struct{}{}
 		go func(i int, j job) {
@@ -1035,13 +1053,13 @@ func main() {
 			defer func() { <-sem }()
 			res := runCase(j.c, rng.New(j.seed))
 			nt := res.nchunks >= 2 && res.nids >= 2 && res.aliasUse
-			cs := coqfmt.Case{Term: res.term, Input: j.c, Observed: res.observed, Seed: j.seed, Nontrivial: nt, Kind: j.kind, Direct: res.direct}
+			cs := coqfmt.Case{Term: "UC (" + res.term + ")", Input: j.c, Observed: res.observed, Seed: j.seed, Nontrivial: nt, Kind: j.kind, Direct: res.direct}
 			if res.direct != "" && strings.HasPrefix(res.direct, "harness:") {
 				fmt.Fprintln(os.Stderr, res.direct)
 				os.Exit(3)
 			}
 			if res.term == "" {
-				cs.Term = "mkUpCase PNone [] [] [] [] [] [] [] [] false false"
+				cs.Term = "UC (mkUpCase PNone [] [] [] [] [] [] [] [] false false)"
 			}
 			mu.Lock()
 			results[i] = cs
@@ -1049,13 +1067,73 @@ func main() {
 		}(i, j)
 	}
 	wg.Wait()
+	// real-time family: after the event-history cases (no competition for the cores), 16 at a time,
+	// except the cases that use the library's package-level DEFAULT policy object: that object is
+	// shared by every default-policy stream of the PROCESS, so these run one after the other (else
+	// state a change hangs on the object would be smeared over unrelated cases and hidden);
+	// a miss is then re-run ALONE up to 3 times and kept only if it misses every time
+	rtFirst := map[int]rtRes{}
+	rsem := make(chan struct{}, 16)
+	t0rt := time.Now()
+	runOne := func(i int, j job) {
+		res := runRT(j.c.RT, rng.New(j.seed))
+		mu.Lock()
+		rtFirst[i] = res
+		mu.Unlock()
+	}
+	wg.Add(1)
+	go func() {
+		defer wg.Done()
+		for i, j := range jobs {
+			if j.c.RT != nil && j.c.RT.Mode == "default" {
+				runOne(i, j)
+			}
+		}
+	}()
+	for i, j := range jobs {
+		if j.c.RT == nil || j.c.RT.Mode == "default" {
+			continue
+		}
+		wg.Add(1)
+		rsem <- struct{}{}
+		go func(i int, j job) {
+			defer wg.Done()
+			defer func() { <-rsem }()
+			runOne(i, j)
+		}(i, j)
+	}
+	wg.Wait()
+	rtRetried := 0
+	for i, j := range jobs {
+		if j.c.RT == nil {
+			continue
+		}
+		res := rtFirst[i]
+		if res.miss {
+			rtRetried++
+		}
+		res = runRTRetry(j.c.RT, j.seed, res, func(f func()) { f() })
+		if strings.HasPrefix(res.direct, "harness:") {
+			fmt.Fprintln(os.Stderr, res.direct)
+			os.Exit(3)
+		}
+		cs := coqfmt.Case{Term: res.term, Input: j.c, Observed: res.observed, Seed: j.seed, Kind: j.kind, Direct: res.direct,
+			Nontrivial: j.c.RT.Streams >= 2 && j.c.RT.Neighbour != "none" && !res.miss}
+		if res.term == "" {
+			cs.Term = "RT (mkRtCase 0 0 [] false [] [] [])"
+		}
+		results[i] = cs
+	}
+	rtWall := time.Since(t0rt)
 	for i, cs := range results {
 		w.Add(cs)
 		w.Count("policy:" + jobs[i].c.Policy)
 		w.Count(fmt.Sprintf("ops:%d", len(jobs[i].c.Ops)/4*4))
 	}
 	rule := "exhaustive: every op sequence of fixed length over {write id1, write id2 (0-byte and 6-byte point), zero-point write, flush, ack oldest outstanding + alias, tick} per policy, then close; random: 3-16 ops over 1-5 data ids, 0-3 points per write with payload lengths straddling the size threshold, policies none/interval/size/interval-or-size/immediate, QoS x3, ack styles none/eager/reordered/duplicated+failure codes, aliases handed out in the open response and mid-stream, ops after close. non-trivial = >=2 chunks, >=2 data ids and at least one group transmitted in alias form; distinct = distinct Coq case terms"
-	if err := w.Flush(*seed, *tier, rule, false, nil); err != nil {
+	rule += "; rt-interval (real clock, no policy wrapper): 1-3 streams on one connection opened with no flush-policy option (the library's shared default object, 100 ms / 10000 B), IntervalOnly(d) or IntervalOrBufferSize(d,64), d in {20,50} ms, private or one shared policy object; a neighbour cuts by size every 2-5 ms, is closed, or all streams resume after a link cut; 2 small writes per stream under test at random phases; each must reach the broker within interval+slack ms (a miss is re-run alone 3 times); non-trivial = >=2 streams with a neighbour action and no miss"
+	extra := map[string]interface{}{"rt_wall_ms": rtWall.Milliseconds(), "rt_first_pass_misses_retried": rtRetried}
+	if err := w.Flush(*seed, *tier, rule, false, extra); err != nil {
 		fmt.Fprintln(os.Stderr, err)
 		os.Exit(2)
 	}
